@@ -13,9 +13,10 @@ open Fp Fp.Proxy Fp.Spec.Proxy
 /-- Obligation on the statement sequence of `rewriteFunc` REGENERATED from the source: the client's
 X-Forwarded-For list is copied to the outbound request and `SetXForwarded` is then called, before the
 injectors run. -/
-theorem gen_ok : Gen.Proxy.rewriteSteps.take 3 =
-    ["r.SetURL(f.To)", "r.Out.Header[\"X-Forwarded-For\"]=r.In.Header[\"X-Forwarded-For\"]", "r.SetXForwarded()"] := by
-  first | rfl | (refine ⟨?_, ?_, ?_, ?_, ?_, ?_⟩ <;> rfl)
+theorem gen_ok : Gen.Proxy.rewriteSteps.take 4 =
+    ["r.SetURL(f.To)",
+     "iftq,iq:=f.To.RawQuery,r.In.URL.RawQuery;tq==\"\"||iq==\"\"{r.Out.URL.RawQuery=tq+iq}else{r.Out.URL.RawQuery=tq+\"&\"+iq}", "r.Out.Header[\"X-Forwarded-For\"]=r.In.Header[\"X-Forwarded-For\"]", "r.SetXForwarded()"] := by
+  first | rfl | (rfl)
 
 /-- injector names never collide with the forwarding headers (true of the default set and required of
 custom sets for these statements) -/
